@@ -846,6 +846,7 @@ class Machine(object):
                     state, on_enter=on_enter, on_exit=on_exit,
                     ignore_invalid_triggers=ignore, **kwargs)
             elif isinstance(state, dict):
+                state = dict(state)  # the caller's definition is not ours to change (it may be used again)
                 if 'ignore_invalid_triggers' not in state:
                     state['ignore_invalid_triggers'] = ignore
                 state = self._create_state(**state)
